@@ -12,6 +12,8 @@ package admin
 //	               persistent symbol table (REPL-style line feeding)
 //	mode "test"    the `ego test` pipeline (compiler in test mode + interactive), sandboxed
 //	mode "tok"     tokenizer.New only (byte noise is cheap here)
+//	mode "<m>@<n>" mode <m> at optimizer level <n> (ego run --optimize <n>; the default is 0): constant
+//	               expressions are then evaluated by the optimizer while the program is compiled
 //	mode "debug"   executeAdminDebug (the /admin/run debug worker): the text's lines are debugger
 //	               commands for a fixed program; the debugger runs in its own goroutine
 //
@@ -89,6 +91,10 @@ var c07Session = 0
 
 func c07Exec(mode, src string) (err error) {
 	sess := &router.Session{ID: 7, User: "c07", Admin: false}
+
+	// "admin@2" = mode admin at optimizer level 2; every case sets its level (default 0)
+	mode, level := c07SplitMode(mode)
+	c07SetLevel(level)
 
 	switch mode {
 	case "admin":
